@@ -428,6 +428,11 @@ def run_job(job, tier='quick', log=print):
                                            solver='cadical --stop-on-fail', secs=secs, real=real, job=job['name'], trace=pr.get('trace')))
         res['notes'].append('full runs gave no answer; the --stop-on-fail run found a failing obligation')
         res['status'] = 'failed' if res['obligations'] else 'undecided'
+        if any('undefined function' in o['description'] for o in res['obligations']):
+            res['status'] = 'extract-error'
+            res['notes'].append('extracted text calls a function without body or contract: ' + ', '.join(o['id'].split('.')[0] for o in res['obligations']))
+            for o in res['obligations']:
+                o['status'] = 'undecided'
         res['secs'] = time.time() - t0
         return res
     if not verdicts and job.get('split', 'auto') in ('auto', 'always'):
@@ -504,6 +509,15 @@ def run_job(job, tier='quick', log=print):
         res['status'] = 'undecided'
     else:
         res['status'] = 'proved'
+    # a failed "undefined function" obligation means the extracted text calls something without body or contract:
+    # that is an extraction problem, never a violation
+    undef = [o for o in res['obligations'] if o['status'] == 'failed' and 'undefined function' in o['description']]
+    if undef:
+        res['status'] = 'extract-error'
+        res['notes'].append('extracted text calls a function without body or contract: ' + ', '.join(sorted(set(o['id'].split('.')[0] for o in undef))))
+        for o in res['obligations']:
+            if o['status'] == 'failed':
+                o['status'] = 'undecided'
     unmodelled = [m for s, (p, _) in verdicts.items() for m in p['messages'] if 'no body for' in m or 'undefined function' in m]
     if unmodelled:
         res['notes'].append('cbmc: ' + '; '.join(sorted(set(unmodelled)))[:1500])
